@@ -468,6 +468,8 @@ impl<'a, 'b> GeneratorState<'a> {
             if v == 0 {
                 // Let's see if we can shortcut compare instruction
                 if flags_ok(&self.flags, left) {
+                    #[cfg(cc6502_verif_flags)]
+                    self.verif_flags_use();
                     match operator {
                         Operation::Neq => {
                             self.asm(BNE, &ExprType::Label(label.into()), pos, false)?;
@@ -902,6 +904,8 @@ impl<'a, 'b> GeneratorState<'a> {
 
         let expr = self.generate_expr(condition, pos, false, false)?;
         if flags_ok(&self.flags, &expr) {
+            #[cfg(cc6502_verif_flags)]
+            self.verif_flags_use();
             if let ExprType::A(_) = expr {
                 self.acc_in_use = false;
             }
